@@ -2,6 +2,7 @@ package main
 
 import (
 	"bytes"
+	"compress/gzip"
 	"context"
 	"encoding/json"
 	"fmt"
@@ -474,7 +475,14 @@ func c17HTTP(ctx *Ctx, i int, rng *rand.Rand) {
 	if err := hs.Server.Register("vipnode_", &EchoService{}); err != nil {
 		fatal("%v", err)
 	}
-	srv := httptest.NewServer(hs)
+	// every other case: the pool sits behind a front end that compresses replies for clients
+	// that accept it (any reverse proxy or CDN does): the message must still arrive intact
+	var handler http.Handler = hs
+	compress := i%2 == 0
+	if compress {
+		handler = gzipFrontEnd(hs)
+	}
+	srv := httptest.NewServer(handler)
 	defer srv.Close()
 	paddr, closeProxy := rechunkProxy(strings.TrimPrefix(srv.URL, "http://"), int64(i))
 	defer closeProxy()
@@ -505,7 +513,29 @@ func c17HTTP(ctx *Ctx, i int, rng *rand.Rand) {
 			break
 		}
 	}
-	ctx.Emit(Case{I: i, Kind: "http", Desc: map[string]interface{}{"calls": calls}, Monitor: mon})
+	ctx.Emit(Case{I: i, Kind: "http", Desc: map[string]interface{}{"calls": calls, "compressing_front_end": compress}, Monitor: mon})
+}
+
+type gzipWriter struct {
+	http.ResponseWriter
+	zw *gzip.Writer
+}
+
+func (g gzipWriter) Write(b []byte) (int, error) { return g.zw.Write(b) }
+
+// gzipFrontEnd compresses the reply when the request says the client accepts gzip.
+func gzipFrontEnd(next http.Handler) http.Handler {
+	return http.HandlerFunc(func(w http.ResponseWriter, r *http.Request) {
+		if !strings.Contains(r.Header.Get("Accept-Encoding"), "gzip") {
+			next.ServeHTTP(w, r)
+			return
+		}
+		w.Header().Set("Content-Encoding", "gzip")
+		w.Header().Add("Vary", "Accept-Encoding")
+		zw := gzip.NewWriter(w)
+		defer zw.Close()
+		next.ServeHTTP(gzipWriter{w, zw}, r)
+	})
 }
 
 // chunkedCall posts one request whose body is written in pieces of the sender's choosing with no
